@@ -31,6 +31,10 @@ def runs(tier):
                                                     RanksS={2}, Lean=True, KindPairs={('mixed1', 'mixed1'), ('mixedL', 'mixedL')})))
     out.append(dict(name='mmmix', constants=dict(base, Scenarios={'chain'}, Ops={'MatMul'}, RanksS={2}, Lean=True,
                                                  KindPairs={('mixed1', 'mixedL'), ('mixedL', 'real')})))
+    # beyond toy sizes: order 4 and 5, mode size 4, rank 4 (vector-type trains, one shape per order)
+    out.append(dict(name='big', nshards=4, constants=dict(base, MaxD=5, DimsR={4}, DimsC={1}, RanksS={4}, Lean=True, Scenarios={'same'},
+                                                          Ops={'Add', 'Sub', 'Full', 'Conj', 'SMul', 'Transpose', 'Copy', 'Elements'},
+                                                          KindPairs={('complex', 'real')})))
     out.append(dict(name='norm1', constants=dict(base, Scenarios={'single'}, Ops={'Norm1', 'Norm2'}, KindPairs={('pos', 'pos')},
                                                  Seeds={1, 2})))
     out.append(dict(name='lin', constants=dict(base, RanksS={1, 2}, Scenarios={'lin'}, Ops={'Residual'},
